@@ -119,7 +119,7 @@ Record exchange := { e_type : extype; e_durable : bool; e_autodel : bool; e_inte
 #[export] Instance eta_exchange : Settable _ := settable! Build_exchange <e_type; e_durable; e_autodel; e_internal; e_system; e_bindings>.
 
 Record state := { conns : list (N * conn); queues : list (string * queue); exchanges : list (string * exchange);
-                  heap : list (N * msg); next_uid : N; next_cid : N; next_qid : N;
+                  heap : list (N * msg); next_uid : N; next_cid : N; next_qid : N; next_gen : N;
                   autodel : list string;
                   st_add : list (N * string);   (* persistent store: pending adds (uid, queue) *)
                   st_db : list (N * string);    (* persistent store: flushed keys *)
@@ -127,7 +127,7 @@ Record state := { conns : list (N * conn); queues : list (string * queue); excha
                   relay : list N;               (* confirmSyncCh *)
                   srv_ready : Z; srv_unacked : Z; srv_total : Z }.
 #[export] Instance eta_state : Settable _ :=
-  settable! Build_state <conns; queues; exchanges; heap; next_uid; next_cid; next_qid; autodel; st_add; st_db; st_del; relay; srv_ready; srv_unacked; srv_total>.
+  settable! Build_state <conns; queues; exchanges; heap; next_uid; next_cid; next_qid; next_gen; autodel; st_add; st_db; st_del; relay; srv_ready; srv_unacked; srv_total>.
 
 (* ------------------------------------------------------------------ *)
 (* frames the broker sends *)
@@ -786,6 +786,17 @@ Definition finish_publish (fx : fixes) (s : state) (c h : N) (u : N) : state * l
 Definition ok (s : state) (evs : list event) : state * list event * option aerr := (s, evs, None).
 Definition refuse (s : state) (e : aerr) : state * list event * option aerr := (s, [], Some e).
 
+(* consumer tags the server makes up (consumer.go: generateTag, "<unix time>_<id>"): the model numbers them in the order
+   they are made; the harness renames the real ones the same way *)
+Fixpoint dec_digits (fuel : nat) (n : N) (acc : string) : string :=
+  match fuel with
+  | O => acc
+  | S f => let acc' := String (Ascii.ascii_of_N (48 + N.modulo n 10)) acc in
+           if n <? 10 then acc' else dec_digits f (N.div n 10) acc'
+  end.
+Definition gen_tag (n : N) : string := String.append "amq.gen-" (dec_digits 40 n EmptyString).
+Definition eff_tag (s : state) (tag : string) : string := if seqb tag ""%string then gen_tag (next_gen s) else tag.
+
 Definition queue_found (s : state) (qn : string) : option queue :=
   match get_queue s qn with Some qu => if q_active qu then Some qu else None | None => None end.
 Definition locked (qu : queue) (c : N) : bool := q_excl qu && negb (q_owner qu =? c).
@@ -985,7 +996,8 @@ Definition handle_method (cfg : config) (fx : fixes) (s : state) (c h : N) (m : 
       let s := s <| heap := aset N.eqb u m (heap s) |> <| next_uid := u + 1 |> in
       ok (set_chan s c h (ch <| ch_cur := Some u |>)) []
     end
-  | MConsume q tag noack excl nowait =>
+  | MConsume q tag0 noack excl nowait =>
+    let tag := eff_tag s tag0 in
     match queue_found s q with
     | None => refuse s (ChanErr NotFound 60 20)
     | Some qu =>
@@ -1004,6 +1016,7 @@ Definition handle_method (cfg : config) (fx : fixes) (s : state) (c h : N) (m : 
           let cm := {| c_id := next_cid s; c_tag := tag; c_queue := q; c_noack := noack; c_status := CStarted;
                        c_token := true; c_own := ch_cqos ch |} in
           let s := s <| next_cid ::= N.succ |> in
+          let s := if seqb tag0 ""%string then s <| next_gen ::= N.succ |> else s in
           let s := set_chan s c h (ch <| ch_consumers ::= fun l => l ++ [cm] |>) in
           ok s (if nowait then [] else out1 c h (SConsumeOk tag))
       end
@@ -1129,7 +1142,7 @@ Definition restart (cfg : config) (s : state) : state * list event :=
   let total := fold_left (fun z kv => (z + q_len (snd kv))%Z) queues' 0%Z in
   ({| conns := []; queues := queues'; exchanges := exs;
       heap := map (fun kv => (fst kv, (snd kv) <| m_conf := None |>)) (heap s);
-      next_uid := next_uid s; next_cid := next_cid s; next_qid := next_qid s; autodel := [];
+      next_uid := next_uid s; next_cid := next_cid s; next_qid := next_qid s; next_gen := next_gen s; autodel := [];
       st_add := []; st_db := filter (fun k => existsb (fun kv => seqb (fst kv) (snd k)) durq) (st_db s); st_del := []; relay := [];
       srv_ready := total; srv_unacked := 0; srv_total := total |},
    map (fun kv => (fst kv, 0, SConnGone)) (conns s)).
@@ -1335,7 +1348,7 @@ Definition init_exchanges (cfg : config) : list (string * exchange) :=
    ((if cfg_rabbit cfg then "amq.header"%string else "amq.headers"%string), sys ExHeaders); (""%string, sys ExDirect)].
 
 Definition init (cfg : config) : state :=
-  {| conns := []; queues := []; exchanges := init_exchanges cfg; heap := []; next_uid := 1; next_cid := 1; next_qid := 1; autodel := [];
+  {| conns := []; queues := []; exchanges := init_exchanges cfg; heap := []; next_uid := 1; next_cid := 1; next_qid := 1; next_gen := 1; autodel := [];
      st_add := []; st_db := []; st_del := []; relay := []; srv_ready := 0; srv_unacked := 0; srv_total := 0 |}.
 
 Fixpoint run (cfg : config) (fx : fixes) (s : state) (ls : list label) : state * list event :=
